@@ -211,7 +211,22 @@ def check(ctx):
                               "parse, while the other order builds")
         # (D) commutativity
         _commute(ctx, V, fname, cl, branches)
+        # (F) the dispatch variable names the clause being parsed: a branch may re-use it for a look-ahead, but then no later
+        # read in the same iteration may see *either* value (one reaching definition per read)
+        inloop = {id(x) for x in ast.walk(cl)}
+        amb = []
+        for n in V.cfg.nodes:
+            if id(n.ast) not in inloop:
+                continue
+            if any(isinstance(x, ast.Name) and x.id == "connective" and isinstance(x.ctx, ast.Load) for x in V.cfg.walk_node(n)):
+                ds, _ = V.reaching_defs(n, "connective")
+                if len(ds) > 1:
+                    amb.append("line %d: %s" % (n.lineno, src(n.ast)[:50]))
+        ctx.check(not amb, "T-commute", cl, "%s: every read of the clause word `connective` sees one definition %s" % (fname, amb[:2] or ""),
+                  "a branch overwrites `connective` with a look-ahead token and code after the dispatch reads it: what is recorded or "
+                  "tested for this clause depends on whether an operand followed, i.e. on the order of the clauses")
     ctx.floor("clause-loops", loops, 11)
+    reserved_peeks(ctx, B)
 
 
 def _branch_rw(V, body):
@@ -309,3 +324,48 @@ def _commute(ctx, V, fname, cl, branches):
 
 
 TRAILING = {"buildAux": {"if", "and"}}   # the property excludes aux's trailing condition clause
+
+
+def reserved_peeks(ctx, B):
+    """look-ahead discipline of optional operands: `x = tokens[index]` followed by a test `x in Reserved`.  When the token
+    turns out to be reserved it was only peeked, not consumed: x must be re-assigned before it is used as a value (error
+    messages excepted), otherwise the keyword of the *next* clause becomes the operand and the result depends on clause order"""
+    ctx.rule("T1-peek", "a peeked token found to be Reserved is never used as the operand value (re-assigned first)")
+    inst = 0
+    for name, f in sorted(B.methods.items()):
+        if not name.startswith(("parse", "build", "make")):
+            continue
+        V = FuncView(ctx, f)
+        cfg = V.cfg
+        raises = [n.id for n in cfg.nodes if n.kind == "raise"]
+        for A in cfg.nodes:
+            a = A.ast
+            if not (isinstance(a, ast.Assign) and len(a.targets) == 1 and isinstance(a.targets[0], ast.Name) and src(a.value) == "tokens[index]"):
+                continue
+            X = a.targets[0].id
+            for tn, lab in V.ptests("%s in Reserved" % X):
+                if not V.dominated([tn], [A]):
+                    continue
+                inst += 1
+                bad = None
+                seen, stack = set(), [b for b, l in cfg.succ[tn.id] if l == lab]
+                while stack and bad is None:
+                    i = stack.pop()
+                    if i in seen:
+                        continue
+                    seen.add(i)
+                    n = cfg.nodes[i]
+                    stores = any(isinstance(x, ast.Name) and x.id == X and isinstance(x.ctx, ast.Store) for x in cfg.walk_node(n))
+                    use = n.kind not in ("test", "raise") and any(isinstance(x, ast.Name) and x.id == X and isinstance(x.ctx, ast.Load)
+                                                                  for x in cfg.walk_node(n))
+                    if use and not (raises and cfg.always_reaches([n.id], raises)):
+                        bad = n
+                        break
+                    if stores:
+                        continue
+                    stack.extend(b for b, _ in cfg.succ.get(i, []))
+                ctx.check(bad is None, "T1-peek", tn.ast, "%s: `%s = tokens[index]` found reserved is re-assigned before use%s" % (
+                    name, X, "" if bad is None else " (used at line %d: %s)" % (bad.lineno, src(bad.ast)[:50])),
+                    "the reserved word of the following clause is returned as the optional operand although it was not consumed: "
+                    "`... of framer with a 1` names framer `with`, while the permuted clause order names `me`")
+    ctx.floor("T1-peek:instances", inst, 20)
